@@ -2,7 +2,7 @@ import PrimaiteModel.Model.Reward
 open Primaite Primaite.Reward Primaite.RewardGraph
 
 /-! Line protocol of the C10 driver. Words are separated by blanks. A NAME / STRING word is escaped: every character other
-than printable ASCII without blank and backslash is written `\<hex code point>;`, the empty string is `\e`.
+than printable ASCII without blank, backslash and `, : ; = /` is written `\<hex code point>;`, the empty string is `\e`.
 A Python VALUE is a word sequence in prefix form:
 
     N            None                      T / F        True / False
@@ -74,7 +74,7 @@ def hexDigits (n : Nat) : String := String.ofList (Nat.toDigits 16 n)
 def escape (s : String) : String :=
   if s.isEmpty then "\\e"
   else String.join (s.toList.map (fun c =>
-    if c.toNat > 32 ∧ c.toNat < 127 ∧ c ≠ '\\' then String.singleton c else "\\" ++ hexDigits c.toNat ++ ";"))
+    if c.toNat > 32 ∧ c.toNat < 127 ∧ c ≠ '\\' ∧ c ≠ ',' ∧ c ≠ ':' ∧ c ≠ ';' ∧ c ≠ '=' ∧ c ≠ '/' then String.singleton c else "\\" ++ hexDigits c.toNat ++ ";"))
 
 def allSome {α} : List (Option α) → Option (List α)
   | [] => some []
